@@ -117,14 +117,14 @@ func (r *evRecorder) count() int {
 // ---------------------------------------------------------------------------- environment
 
 type envOpts struct {
-	name       string
-	authKey    string
-	tagsFile   string
-	tags       map[string]string
-	encrypt    bool          // give the node a keyring (key commands then have something to change)
-	gossip     time.Duration // memberlist GossipInterval (default 1h); the default query timeout derives from it
-	queryMult  int
-	logLevel   string
+	name      string
+	authKey   string
+	tagsFile  string
+	tags      map[string]string
+	encrypt   bool          // give the node a keyring (key commands then have something to change)
+	gossip    time.Duration // memberlist GossipInterval (default 1h); the default query timeout derives from it
+	queryMult int
+	logLevel  string
 }
 
 type env struct {
@@ -381,22 +381,22 @@ func (g *gatedConn) setStalled(v bool) {
 
 // frame is one reply header together with the body object that followed it (nil if none).
 type frame struct {
-	Seq   uint64
-	Err   string
-	Body  map[string]interface{}
-	Kind  string // "", members, join, coord, keys, stats, qrec, log, uev, mev, qev, other
+	Seq  uint64
+	Err  string
+	Body map[string]interface{}
+	Kind string // "", members, join, coord, keys, stats, qrec, log, uev, mev, qev, other
 }
 
 type client struct {
-	conn   *gatedConn
-	enc    *codec.Encoder
-	mu     sync.Mutex
-	frames []frame
-	closed bool // reader saw EOF / error
+	conn      *gatedConn
+	enc       *codec.Encoder
+	mu        sync.Mutex
+	frames    []frame
+	closed    bool   // reader saw EOF / error
 	decodeErr string // a decoding error other than the end of the connection
 	closing   bool   // the harness itself is closing the connection
-	rdDone chan struct{}
-	wmu    sync.Mutex
+	rdDone    chan struct{}
+	wmu       sync.Mutex
 }
 
 func msgpackHandle() *codec.MsgpackHandle {
@@ -552,6 +552,15 @@ func (c *client) send(obj interface{}) error {
 	defer c.wmu.Unlock()
 	_ = c.conn.Conn.SetWriteDeadline(time.Now().Add(10 * time.Second))
 	return c.enc.Encode(obj)
+}
+
+// writeRaw hands pre-encoded bytes to the connection with a single Write.
+func (c *client) writeRaw(b []byte) error {
+	c.wmu.Lock()
+	defer c.wmu.Unlock()
+	_ = c.conn.Conn.SetWriteDeadline(time.Now().Add(10 * time.Second))
+	_, err := c.conn.Conn.Write(b)
+	return err
 }
 
 func (c *client) header(cmd string, seq uint64) error {
